@@ -2126,81 +2126,95 @@ impl<'store> FindTextSelectionsIter<'store> {
     /// The reference text selection is always in the subject position for the associated [`TextSelectionOperator`] (`operator()`)
     /// The boolean returns the direction of iteration (true = forward, false = backwards)
     fn init_textseliters(&mut self) {
+        // Note: the ranges below only narrow down the candidates (each is tested afterwards), so they
+        // must be supersets of the matches: range() is half-open and selects by begin position when
+        // iterating forward and by end position when iterating backwards.
+        let negated = match self.operator {
+            TextSelectionOperator::Equals { negate, .. }
+            | TextSelectionOperator::Overlaps { negate, .. }
+            | TextSelectionOperator::Embeds { negate, .. }
+            | TextSelectionOperator::Embedded { negate, .. }
+            | TextSelectionOperator::Before { negate, .. }
+            | TextSelectionOperator::After { negate, .. }
+            | TextSelectionOperator::Precedes { negate, .. }
+            | TextSelectionOperator::Succeeds { negate, .. }
+            | TextSelectionOperator::SameBegin { negate, .. }
+            | TextSelectionOperator::SameEnd { negate, .. }
+            | TextSelectionOperator::InSet { negate, .. }
+            | TextSelectionOperator::SameRange { negate, .. } => negate,
+        };
+        if negated {
+            // a negated relation may hold anywhere in the text
+            self.textseliters.push((self.resource.iter(), true));
+            return;
+        }
+        let textlen = self.resource.textlen();
+        let (refbegin, refend) = match (self.refset.begin(), self.refset.end()) {
+            (Some(begin), Some(end)) => (begin, end),
+            _ => {
+                self.textseliters.push((self.resource.iter(), true));
+                return;
+            }
+        };
         match self.operator {
             TextSelectionOperator::Embeds { .. } => {
-                for reftextselection in self.refset.iter() {
-                    self.textseliters.push((
-                        self.resource
-                            .range(reftextselection.begin(), reftextselection.end()),
-                        true,
-                    ));
-                }
+                //found items begin inside the reference (a zero-width item may sit at its very end)
+                self.textseliters
+                    .push((self.resource.range(refbegin, refend + 1), true));
             }
             TextSelectionOperator::SameBegin { .. } => {
-                self.textseliters.push((
-                    self.resource.range(
-                        self.refset.begin().unwrap(),
-                        self.refset.begin().unwrap() + 1,
-                    ),
-                    true,
-                ));
+                self.textseliters
+                    .push((self.resource.range(refbegin, refbegin + 1), true));
             }
             TextSelectionOperator::SameEnd { .. } => {
                 self.textseliters.push((
-                    self.resource
-                        .range(self.refset.end().unwrap(), self.refset.end().unwrap() + 1),
+                    self.resource.range(refend, refend + 1),
                     false, //search backwards! end must be in range above
                 ));
             }
             TextSelectionOperator::After { limit, .. } => {
-                //self comes after found items, so find items before self:
+                //self comes after found items, so find items that end before self begins:
                 let begin = if let Some(limit) = limit {
-                    if limit >= self.refset.begin().unwrap() {
-                        0
-                    } else {
-                        self.refset.begin().unwrap() - limit
-                    }
+                    refbegin.saturating_sub(limit)
                 } else {
                     0
                 };
                 self.textseliters.push((
-                    self.resource.range(begin, self.refset.begin().unwrap()),
-                    true,
+                    self.resource.range(begin, refbegin + 1),
+                    false, //search backwards! end must be in range above
                 ));
             }
             TextSelectionOperator::Succeeds {
                 allow_whitespace, ..
             } => {
+                //found items end where self begins (or at most some whitespace before)
+                let begin = if allow_whitespace {
+                    refbegin.saturating_sub(WHITESPACE_LIMIT)
+                } else {
+                    refbegin
+                };
                 self.textseliters.push((
-                    self.resource.range(
-                        self.refset.begin().unwrap(),
-                        self.refset.begin().unwrap()
-                            + if allow_whitespace {
-                                WHITESPACE_LIMIT + 1
-                            } else {
-                                1
-                            },
-                    ),
+                    self.resource.range(begin, refbegin + 1),
                     false, //search backwards!! end must be in range above
                 ));
             }
             TextSelectionOperator::Before { limit, .. } => {
-                //self comes before found items, so find items after self:
+                //self comes before found items, so find items that begin after self ends:
                 let end = if let Some(limit) = limit {
-                    self.refset.end().unwrap() + limit
+                    refend + limit
                 } else {
-                    self.resource.textlen()
+                    textlen
                 };
                 self.textseliters
-                    .push((self.resource.range(self.refset.end().unwrap(), end), true));
+                    .push((self.resource.range(refend, end + 1), true));
             }
             TextSelectionOperator::Precedes {
                 allow_whitespace, ..
             } => {
                 self.textseliters.push((
                     self.resource.range(
-                        self.refset.end().unwrap(),
-                        self.refset.end().unwrap()
+                        refend,
+                        refend
                             + if allow_whitespace {
                                 WHITESPACE_LIMIT + 1
                             } else {
@@ -2210,44 +2224,38 @@ impl<'store> FindTextSelectionsIter<'store> {
                     true,
                 ));
             }
-            TextSelectionOperator::Embedded {
-                limit: Some(limit), ..
-            } => {
-                let halfway = self.resource.textlen() / 2;
-                for reftextselection in self.refset.iter() {
-                    if reftextselection.begin() <= halfway {
-                        let begin = if reftextselection.begin() > limit {
-                            reftextselection.begin() - limit
-                        } else {
-                            0
-                        };
-                        self.textseliters
-                            .push((self.resource.range(begin, reftextselection.end()), true));
+            TextSelectionOperator::Embedded { limit, .. } => {
+                //found items begin at or before the reference and end at or after it
+                if refbegin <= textlen / 2 {
+                    let begin = if let Some(limit) = limit {
+                        refbegin.saturating_sub(limit)
                     } else {
-                        let mut end = reftextselection.end() + limit;
-                        if end > self.resource.textlen() {
-                            end = self.resource.textlen();
-                        }
-                        self.textseliters.push((
-                            self.resource.range(reftextselection.end(), end),
-                            false, //search backwards!!
-                        ));
-                    }
+                        0
+                    };
+                    self.textseliters
+                        .push((self.resource.range(begin, refbegin + 1), true));
+                } else {
+                    let end = if let Some(limit) = limit {
+                        std::cmp::min(refend + limit, textlen)
+                    } else {
+                        textlen
+                    };
+                    self.textseliters.push((
+                        self.resource.range(refend, end + 1),
+                        false, //search backwards!!
+                    ));
                 }
             }
-            TextSelectionOperator::Overlaps { .. } | TextSelectionOperator::Embedded { .. } => {
-                let halfway = self.resource.textlen() / 2;
-                for reftextselection in self.refset.iter() {
-                    if reftextselection.begin() <= halfway {
-                        self.textseliters
-                            .push((self.resource.range(0, reftextselection.end()), true));
-                    } else {
-                        self.textseliters.push((
-                            self.resource
-                                .range(reftextselection.end(), self.resource.textlen()),
-                            false, //search backwards!!
-                        ));
-                    }
+            TextSelectionOperator::Overlaps { .. } => {
+                //found items begin no later than the reference ends and end no earlier than it begins
+                if refbegin <= textlen / 2 {
+                    self.textseliters
+                        .push((self.resource.range(0, refend + 1), true));
+                } else {
+                    self.textseliters.push((
+                        self.resource.range(refbegin, textlen + 1),
+                        false, //search backwards!!
+                    ));
                 }
             }
             _ => {
